@@ -72,6 +72,13 @@ def check_normal_form(d0, o, case, fresh_printer=False):
     t3 = W.PrettyPrinter(**o).pprint(copy.deepcopy(d))
     if t3 != t:
         return [Discrepancy(bucket("nondeterministic", o, ""), f"same dictionary and options, different text {first_diff(t, t3)}", case)]
+    # ... and the very same dictionary object printed twice (separate_complex_types is documented to reorder its argument)
+    if not o["separate_complex_types"]:
+        ta = W.dumps(d, **o)
+        tb = W.dumps(d, **o)
+        if ta != tb or ta != t:
+            i = next((k for k in range(min(len(ta), len(tb))) if ta[k] != tb[k]), 0)
+            return [Discrepancy(bucket("same_object_twice", o, _kw_of_line(ta, i)), f"printing the same dictionary object twice gives different text {first_diff(ta, tb)}", case)]
     return []
 
 
